@@ -6,8 +6,8 @@
 //@ rewrite FN "Vec::with_capacity(self.min_points)" => "Vec::<usize>::with_capacity(self.min_points)"
 //@ rewrite FN "let mut count = 0;" => "let mut count: usize = 0; let ghost mut src: Seq<int> = Seq::empty();   /* ghost: which answer of the index each list element came from */"
 //@ rewrite FN "let candidate = observations.row(idx);" => "/* let candidate = observations.row(idx); */"
-//@ rewrite FN "for (_, i) in nn.within_range(candidate.view(), eps).unwrap().into_iter() {" => "let wr = nn.within_range_tok(idx, eps); for t in 0..wr.len() /*INVN*/ { let i = wr[t];   /* for (_, i) in nn.within_range(candidate.view(), eps).unwrap().into_iter() */"
-//@ rewrite FN "/*INVN*/" => "invariant wr@.len() == deg(idx as int), clusters@.len() == nn.n@, idx < nn.n@, wr_ok(wr@, idx as int, nn.n@), count == t, (forall|a: int| 0 <= a < res@.len() ==> (#[trigger] res@[a]) < nn.n@ && nbr(idx as int, res@[a] as int) && clusters@[res@[a] as int] is None), src.len() == res@.len(), (forall|a: int| 0 <= a < res@.len() ==> 0 <= (#[trigger] src[a]) < t && wr@[src[a]] == res@[a]), (forall|a: int, b: int| 0 <= a < b < res@.len() ==> res@[a] != res@[b]), (forall|s: int| 0 <= s < t && clusters@[(#[trigger] wr@[s]) as int] is None && wr@[s] != idx ==> res@.contains(wr@[s])),"
+//@ rewrite FN "for (_, i) in nn.within_range(candidate.view(), eps).unwrap().into_iter() {" => "let wr = nn.within_range_tok(idx, eps); let mut t_next: usize = 0; while t_next < wr.len() /*INVN*/ { let t = t_next; t_next += 1; let i = wr[t];   /* for (_, i) in nn.within_range(candidate.view(), eps).unwrap().into_iter() */"
+//@ rewrite FN "/*INVN*/" => "invariant wr@.len() == deg(idx as int), clusters@.len() == nn.n@, idx < nn.n@, wr_ok(wr@, idx as int, nn.n@), count == t_next, t_next <= wr@.len(), (forall|a: int| 0 <= a < res@.len() ==> (#[trigger] res@[a]) < nn.n@ && nbr(idx as int, res@[a] as int) && clusters@[res@[a] as int] is None), src.len() == res@.len(), (forall|a: int| 0 <= a < res@.len() ==> 0 <= (#[trigger] src[a]) < t_next && wr@[src[a]] == res@[a]), (forall|a: int, b: int| 0 <= a < b < res@.len() ==> res@[a] != res@[b]), (forall|s: int| 0 <= s < t_next && clusters@[(#[trigger] wr@[s]) as int] is None && wr@[s] != idx ==> res@.contains(wr@[s])), decreases wr@.len() - t_next,"
 //@ insert FN after "res.push(i);" : proof { assert(res@[res@.len() - 1] == i); assert forall|s: int| 0 <= s < t + 1 && clusters@[(#[trigger] wr@[s]) as int] is None && wr@[s] != idx implies res@.contains(wr@[s]) by { if s < t { let k = choose|k: int| 0 <= k < old_res.len() && old_res[k] == wr@[s]; assert(res@[k] == wr@[s]); } else { assert(res@[res@.len() - 1] == wr@[s]); } } }
 //@ insert FN before "res.push(i);" : let ghost old_res = res@; proof { assert forall|a: int| 0 <= a < res@.len() implies res@[a] != i by { let s = src[a]; assert(wr@[s] != wr@[t as int]); } src = src.push(t as int); }
 //@ expect-fail vacuity_guard_fn
